@@ -231,6 +231,7 @@ func Run(id, repo, verif, tier string, seed int, writeBaseline bool) int {
 	}
 	g := p.Generate(env)
 	g.Notes = append(g.Notes, renameNotes...)
+	g.Static = append(g.Static, constantRequires(env, g)...)
 	tGen := time.Since(t0)
 	for i := range g.Jobs {
 		if env.Findings.Match(id, StableName(g.Jobs[i].Obl.Name)) != nil {
